@@ -109,6 +109,7 @@ class Evaluator:
         self.inlined: set[str] = set()
         self.calls_resolved = 0
         self.calls_unresolved = 0
+        self.exact_terms: set = set()
 
     # ------------------------------------------------------------------ types
     def set_type(self, t: Term, typ: Any) -> Term:
@@ -219,6 +220,11 @@ class Evaluator:
         if h == "ite":
             a, b = self.typeof(t[2]), self.typeof(t[3])
             return a if a == b else None
+        if h == "call" and t[1] in ("tuple", "list", "sorted", "dict", "str", "int", "bool", "len"):
+            return {"tuple": ("tuple", None), "list": ("list", None), "sorted": ("list", None), "dict": ("dict", None, None),
+                    "str": "str", "int": "int", "bool": "bool", "len": "int"}[t[1]]
+        if h == "len":
+            return "int"
         if h == "mut":
             return self.typeof(t[1])
         return None
@@ -633,6 +639,8 @@ class Evaluator:
             return None
         if oldv in (EMPTY, ("setlit", ())) and newv[0] in ("setof", "union", "comp", "setlit", "meth", "call", "accum"):
             return ("union", [newv])
+        if oldv == ("listlit", ()) and newv[0] in ("listlit", "concat", "recurse", "call", "meth", "comp", "accum", "ite"):
+            return ("concat", [newv])
         if newv[0] == "union" and oldv in newv[1:]:
             rest = [x for x in newv[1:] if x != oldv]
             return ("union", rest)
@@ -1021,7 +1029,7 @@ class Evaluator:
             f = c.find_method(attr)
             if f is not None:
                 if f.is_property:
-                    if f.qname in self.primitives or c.qname in self.opaque_classes:
+                    if f.qname in self.primitives or c.qname in self.opaque_classes or self.is_virtual(b, c, attr):
                         t = ("attr", b, attr)
                         self.set_type(t, self.parse_ann(f.module, f.node.returns))
                         return [(state, t)]
@@ -1080,7 +1088,7 @@ class Evaluator:
         if lc is not None and dunder:
             f = lc.find_method(dunder)
             if f is not None:
-                if f.qname in self.primitives or lc.qname in self.opaque_classes or dunder in self.prim_methods:
+                if f.qname in self.primitives or lc.qname in self.opaque_classes or dunder in self.prim_methods or self.is_virtual(l, lc, dunder):
                     return [(state, ("op", sym, l, r))]
                 return self.inline(f, [r], {}, state, func, line, self_term=l)
             rc = self.cls_of(r)
@@ -1260,7 +1268,7 @@ class Evaluator:
             m = c.find_method(name) if c is not None else None
             if m is not None:
                 self.calls_resolved += 1
-                if m.qname in self.primitives or name in self.prim_methods or c.qname in self.opaque_classes:
+                if m.qname in self.primitives or name in self.prim_methods or c.qname in self.opaque_classes or self.is_virtual(recv, c, name):
                     t = self.prim_meth(recv, m, args, kwargs)
                     return self._maybe_effect(t, e, state, stmt_ctx, line)
                 if m.is_classmethod:
@@ -1421,7 +1429,22 @@ class Evaluator:
         return outs
 
     def run(self, func: Func, args: dict[str, Term], self_term: Term | None = None) -> list[Path]:
+        if self_term is not None:
+            self.exact_terms.add(self_term)
         return self._run(func, args, self_term)
+
+    def is_virtual(self, recv: Term, c: Cls, name: str) -> bool:
+        """A method call on a receiver whose dynamic class may be a subclass that overrides the method."""
+        if recv in self.exact_terms or recv[0] in ("rec", "new"):
+            return False
+        base = c.find_method(name)
+        for sc in c.all_subclasses():
+            m = sc.find_method(name)
+            if m is not None and m is not base:
+                return True
+        if base is not None and any(getattr(d, "id", getattr(d, "attr", "")) == "abstractmethod" for d in base.node.decorator_list):
+            return True
+        return False
 
     def infeasible(self, conds: tuple) -> bool:
         pos = set()
@@ -1759,6 +1782,8 @@ class Evaluator:
             env[a.kwarg.arg] = ("dictlit", ())
         self.stack.append(func.qname)
         self.inlined.add(func.qname)
+        if func.is_generator:
+            env["%yield"] = ("listlit", ())
         try:
             state = State(env)
             outs = self.exec_block(func.node.body, state, func)
